@@ -132,8 +132,11 @@ CLAIMED = {
    text="Machine-checked proof (Coq), PARTIAL: the 1-D truncation clauses are proved on the generic model -- trunc_cap (no state beyond the cap), "
         "trunc_horizon (for every program, steps of any size and sign, the truncated run equals the untruncated one on all phase states "
         "|k| <= 2m+1-A with A the accumulated absolute shift since the last reset, by induction over programs with a contamination-front invariant) "
-        "and trunc_F0_Z0_exact (every F0/Z0 acquisition with A <= 2m+1 is identical). The n-D truncation, pruning-bound, prune=0, partials-pruner and "
-        "merging clauses are NOT theorems: they are run as oracles on the implementation (truncated vs untruncated incl. caps lowered mid-sequence and "
+        "and trunc_F0_Z0_exact (every F0/Z0 acquisition with A <= 2m+1 is identical); on the n-D shift model (Model/ShiftND.v, tied by the exact C04 correspondence) "
+        "prune_keeps_centre (the zero state is never removed), prune_removes_only_negligible (a removed state is below the tolerance in every batch entry), "
+        "prune_nothing_negligible_exact (pruning is exact when nothing is negligible) and merge_position0_exact (merging adds amplitudes exactly: the F+ and Z sums are unchanged). "
+        "The n-D truncation horizon, the 2*eps*count pruning bound, the partials-pruner bound and the cell-size displacement bound of "
+        "merging are NOT theorems: they are run as oracles on the implementation (truncated vs untruncated incl. caps lowered mid-sequence and "
         "oblique n-D out-and-back echoes with the cap reached exactly, pruned vs unpruned against 2*eps*cumulative state count, Jacobians with a counting "
         "PartialsPruner against 2*threshold*removals incl. batches, merged vs unmerged value at position 0, sum invariants of merging) -- testing.",
    design_ref="DESIGN.md section 4 C13",
@@ -252,9 +255,13 @@ CLAIMED = {
         "(wf_step, wf_run over all programs, wf_init, only_pd_changes_equilibrium), generic over any commutative ring "
         "with conjugation; the model is tied to epgpy by an exact (dyadic, no tolerance) correspondence of every "
         "intermediate state of generated programs, and the boolean wf predicate is evaluated inside Coq on the "
-        "implementation's own arrays.",
+        "implementation's own arrays. Since round 7 also: wf_run_with_diffusion (all programs interleaving the 1-D operators with D, "
+        "longitudinal factor conjugate-even -- checked on the implementation's DL by the C05 correspondence), D leaves the equilibrium alone, "
+        "exchange_keeps_symmetry (X on a fibre of n compartments with the stacked matrices [MT, conj MT, real ML] keeps F-(k)=conj F+(-k), "
+        "Z(-k)=conj Z(k) in every compartment) and exchange_fixes_equilibrium.",
    design_ref="DESIGN.md section 4 C08",
-   note=TB + "Modelled rather than verified: Model/State.v, Model/Ops.v (un-batched 1-D operators); n-D/float shifts, D and X are covered by the wf predicate on observed arrays only. Axioms: none (closed under the global context).",
+   note=TB + "Modelled rather than verified: Model/State.v, Model/Ops.v (un-batched 1-D operators), Model/Diffusion.v d_apply (tied per D application by C05), "
+        "Model/Exchange.v x_apply_fibre (tied by C06 with injected matrices); n-D/float shifts are covered by the wf predicate on observed arrays only. Axioms: none (closed under the global context).",
    technique="Coq proof by induction over programs + exact model/implementation correspondence"),
 }
 REASON_TODO = "not claimed"
